@@ -4,7 +4,7 @@
 From Coq Require Import Permutation.
 From Base Require Import Prelude.
 From C07 Require Import Event Model Spec ProofsSort ProofsSets ProofsAuth ProofsGraph ProofsPower
-  ProofsMainline ProofsClosure ProofsResolve Witness.
+  ProofsMainline ProofsClosure ProofsResolve ProofsFuel Witness.
 From Coq Require Import ZifyBool ZifyNat ZifyN.
 
 (** * Permuted inputs *)
@@ -262,7 +262,6 @@ Section Determinism.
   Hypothesis Hc : h_create st c ce cr.
   Hypothesis Hwf : pl_wf st.
   Hypothesis Hcite : forall i e, fetch st i = Some e -> i <> c -> In c (e_auth e).
-  Hypothesis Hfuel : forall full control, build_graph st full control <> None.
 
   Theorem resolve_order_independent (o o' : oracles) sets sets' chains chains' :
     perm_oracles o -> perm_oracles o' ->
@@ -291,9 +290,9 @@ Section Determinism.
       destruct (auth_difference chains') as [|x l] eqn:Ex; [reflexivity|exfalso].
       assert (In x (auth_difference chains)) by (apply (auth_difference_perm2 chains chains' x Hpc); rewrite Ex; now left).
       rewrite Hchains in H. destruct H. }
-    destruct (resolve_eq_spec_dev st auth auth_types rank Hrank Hbound Hak Hstate Huniq Hlocal c ce cr Hc Hwf Hcite Hfuel
+    destruct (resolve_eq_spec_dev st auth auth_types rank Hrank Hbound Hak Hstate Huniq Hlocal c ce cr Hc Hwf Hcite (build_graph_total st)
                 sets chains Hm Hch Hsk Hchains o Ho) as (m & R & Em & ER & HmR).
-    destruct (resolve_eq_spec_dev st auth auth_types rank Hrank Hbound Hak Hstate Huniq Hlocal c ce cr Hc Hwf Hcite Hfuel
+    destruct (resolve_eq_spec_dev st auth auth_types rank Hrank Hbound Hak Hstate Huniq Hlocal c ce cr Hc Hwf Hcite (build_graph_total st)
                 sets' chains' Hm' Hch' Hsk' Hchains' o' Ho') as (m' & R' & Em' & ER' & HmR').
     exists m, m'. split; [exact Em|]. split; [exact Em'|].
     pose proof (specdev_perm st auth auth_types rank Hrank Hbound Hak Hlocal sets sets' chains chains' Hm Hps Hpc Hsk R R' ER ER') as HRR.
